@@ -70,15 +70,27 @@ class Ctx:
         self.spec = spec
         self.tier = tier
         self.items = []  # dicts: status, rule, key, where, note
+        self._seen = set()
         self.info = {}
 
     # -- verdict sinks ---------------------------------------------------
+    def _dup(self, status, key):
+        k = (status, key)
+        if k in self._seen:
+            return True
+        self._seen.add(k)
+        return False
+
     def ok(self, key, where="", note=""):
+        if self._dup("ok", key):
+            return
         self.items.append(
             dict(status="ok", rule=self.spec.rid, key=key, where=where, note=note)
         )
 
     def violation(self, key, where, note, **detail):
+        if self._dup("violation", key):
+            return
         self.items.append(
             dict(status="violation", rule=self.spec.rid, key=key, where=where,
                  note=note, detail=detail)
